@@ -519,6 +519,14 @@ def _c08_case(seed):
             parts = [x for x in f.split("/") if x]      # (an empty directory is written as "dir/")
             for i in range(1, len(parts) + 1):
                 allpaths.add(os.path.join(root, *parts[:i]))
+        # the empty exclusion tuple excludes nothing (defect F08a: it crashed); same for an empty regex tuple, alone and together
+        for kw in (dict(exclusions=()), dict(exclusions=(), regex_exclusions=()), dict(regex_exclusions=())):
+            try:
+                got = arch_snapshot(scan(root, **kw))
+                if got != full:
+                    out.append(dict(case="exclusion", detail=f"{kw}: differs from the scan without patterns: modules {sorted(got[0] ^ full[0])[:5]}, imports {sorted(got[1] ^ full[1])[:5]}", input=dict(kind="c08", seed=seed)))
+            except Exception as ex:
+                out.append(dict(case="exclusion", detail=f"{kw}: scan raised {type(ex).__name__}: {ex}", input=dict(kind="c08", seed=seed)))
         target = rng.choice(sorted(p for p in allpaths if p != root))
         name = os.path.basename(target)
         shapes = [target, "*" + name, target + "*", "*" + name + "*", "*/" + name, os.path.dirname(target) + "/" + name[:2] + "*"]
